@@ -25,9 +25,13 @@ TParse == /\ Rec[l].e = "parse"
                THEN Rec[l].real = ImplVerdict(Rec[l].c, Rec[l].via)
                ELSE PropParse(Rec[l].real, Rec[l].ref, Rec[l].same, Rec[l].rt)
 
+TMaddr == /\ Rec[l].e = "maddr"
+          /\ Rec[l].c \in MaddrClasses
+          /\ PropMaddr(Rec[l].c, Rec[l].got, Rec[l].append_rt)
+
 TNext == /\ l <= Len(Rec)
          /\ l' = l + 1
-         /\ (TReset \/ TDerive \/ TParse)
+         /\ (TReset \/ TDerive \/ TParse \/ TMaddr)
 
 TSpec == TInit /\ [][TNext]_tvars
 
